@@ -483,3 +483,6 @@ if bad: reproduced(str(bad)[:600])
 not_reproduced()
 """
     return None
+
+# level text addendum (cases added after the seeded-change rounds)
+LEVEL_TEXT = LEVEL_TEXT + ' Also: a second split over its own output, and reconstruction from shank files holding arbitrary 16-bit words decided bit-exactly (cvc5, bit-vectors + IEEE + integers).'
